@@ -1,5 +1,4 @@
-(* C10 - ISO transport protocol: consistency of the reference, the two statements that are false of the model (with witnesses that were
-   replayed on the C++), concrete transfers (non-vacuity) and library to library. *)
+(* C10 - ISO transport protocol: consistency of the reference, concrete nodes for the Examples, library to library by evaluation for every length. *)
 From Coq Require Import ZArith List Bool Lia.
 From N2kV Require Import Base.ListAux Model.CanId Model.Sched Model.PgnClass Model.NodeDefs Model.NodeRxDefs Gen.GenTables Gen.GenConsts
   Spec.SendSpec Spec.TpSpec Proofs.SendProofs Proofs.TpProofsA.
@@ -62,43 +61,8 @@ Proof.
   intros H. unfold addressed, node0, dev_count, get_dev, znth. cbn [rn]. unfold opened_node. cbn [n_devs length nth Z.to_nat mk_dev d_src Z.of_nat Pos.of_succ_nat]. repeat split; try lia.
 Qed.
 
-(* ================= 2g: control frames from a third station ================= *)
-(* device 22 has announced 20 bytes to station 50; a CTS from station 51 makes it send two data packets to 50 *)
-Definition w_a1 : rnode := let a := node0 true 22 5000 5 in with_rn a (fst (fst (send_msg (rn a) (tpm 130816 50 (pay 20)) 0))).
-Theorem tp_foreign_cts_refuted : ~ tp_foreign_cts_ignored_stmt.
-Proof.
-  intros H.
-  specialize (H w_a1 0 {| m_pri := 6; m_pgn := 130816; m_src := 22; m_dst := 50; m_data := pay 20; m_tp := true |} 0 51 22 2 1 130816).
-  assert (P: tp_pending w_a1 0 {| m_pri := 6; m_pgn := 130816; m_src := 22; m_dst := 50; m_data := pay 20; m_tp := true |} 0).
-  { unfold tp_pending, tp_ready. conc. }
-  specialize (H P ltac:(discriminate)).
-  assert (A: addressed w_a1 22 0) by (unfold addressed; split; [conc|split; [conc|split; [conc|intros j Hj; lia]]]).
-  specialize (H A ltac:(lia) ltac:(cbn; discriminate)).
-  vm_compute in H. destruct H as [H _]. discriminate H.
-Qed.
-Print Assumptions tp_foreign_cts_refuted.
-
-
-(* ================= 8s: the receive session nobody ends ================= *)
-(* station 50 announces 20 bytes of PGN 130816 to device 22, gives up, and two seconds later transfers 20 bytes of PGN 130817: the library
-   acknowledges and delivers them as PGN 130816 *)
 Lemma pay_bytes n : bytes_ok (pay n).
 Proof. unfold bytes_ok, pay. apply Forall_forall. intros b Hb. apply in_map_iff in Hb. destruct Hb as (j & <- & _). apply Z.mod_pos_bound. reflexivity. Qed.
-
-Theorem tp_later_transfer_refuted : ~ tp_later_transfer_stmt.
-Proof.
-  intros H.
-  specialize (H gf_none (node0 true 22 5000 5) 50 22 130816 130817 20 (pay 20) 0 2000
-                (node0_ready true 22 5000 5 ltac:(lia)) (node0_addressed true 22 5000 5 ltac:(lia))).
-  assert (F: Forall (fun s => s_free s = true) (r_slots (node0 true 22 5000 5))) by (repeat constructor).
-  assert (L: 9 <= Z.of_nat (length (pay 20)) <= 223) by (vm_compute; split; intro X; discriminate X).
-  specialize (H F ltac:(vm_compute; intro X; discriminate X) eq_refl ltac:(lia) ltac:(discriminate) ltac:(lia) L (pay_bytes 20) ltac:(lia)).
-  cbv zeta in H.
-  specialize (H {| m_pri := 7; m_pgn := 130816; m_src := 50; m_dst := 22; m_data := pay 20; m_tp := true |}).
-  match type of H with ?P -> _ => assert (I: P) by (vm_compute; repeat (first [left; reflexivity | right])) end.
-  destruct (H I eq_refl) as [E _]. discriminate E.
-Qed.
-Print Assumptions tp_later_transfer_refuted.
 
 (* ================= library to library: every length, one byte pattern (the general statement is not yet proved) ================= *)
 Fixpoint list_eqb (a b:list Z) : bool := match a, b with [] , [] => true | x :: a', y :: b' => (x =? y) && list_eqb a' b' | _, _ => false end.
